@@ -85,6 +85,13 @@ def edit(path, case, rng_seed):
         else:
             cur.execute("delete from truth_ephemerides where julian_date = ? and agent_id = ?", (jd, agent_id))
         removed = (agent_id, k, cur.rowcount)
+    if case.get("leave"):
+        aid, i_rm, j_back = case["leave"]
+        t0 = datetime.fromisoformat(case["net"]["start"])
+        for k in range(i_rm + 1, (j_back if j_back is not None else case["steps"]) + (0 if j_back is not None else 1)):
+            ts = (t0 + timedelta(seconds=k * case["net"]["step"])).isoformat(timespec="microseconds")
+            cur.execute("delete from truth_ephemerides where agent_id = ? and julian_date in (select julian_date from epochs where timestampISO = ?)", (aid, ts))
+            cur.execute("delete from observations where target_id = ? and julian_date in (select julian_date from epochs where timestampISO = ?)", (aid, ts))
     if case.get("dup_obs"):
         # the same observation stored twice (duplicate rows): the library documents that it drops the copy
         cols = [r[1] for r in cur.execute("pragma table_info(observations)") if r[1] != "id"]
@@ -116,6 +123,8 @@ def gen_case(rng):
             s["kind"] = net["sensors"][0]["kind"]
     for s in net["sensors"]:
         s["cov_scale"] = rng.choice([1.0, 4.0, 0.25, 9.0])
+    if rng.random() < 0.25:
+        net["targets"][0]["id"] = 0      # 0 is a valid agent id
     steps = rng.randrange(2, 9)
     edit_kind = rng.choice(["exact", "superset", "superset", "gap", "gap", "gap_superset", "gap_superset", "missing_epoch", "missing_epoch_superset"])
     imported = rng.choice(["targets", "targets", "sensors", "both"])
@@ -129,7 +138,7 @@ def gen_case(rng):
     if imported in ("sensors", "both"):
         cand += [s["id"] for s in net["sensors"]]
     if edit_kind.startswith("gap"):
-        gap = [rng.choice(cand), rng.randrange(1, steps + 1)]
+        gap = [0 if (0 in cand and rng.random() < 0.6) else rng.choice(cand), rng.randrange(1, steps + 1)]
     elif edit_kind.startswith("missing_epoch"):
         gap = ["epoch", rng.randrange(1, steps + 1)]
     late = None
@@ -139,12 +148,19 @@ def gen_case(rng):
         if gap is not None and gap[0] == net["targets"][-1]["id"] and gap[1] <= j:
             j = gap[1] - 1
         late = [net["targets"][-1]["id"], j]
+    # an imported target leaves the running scenario after step i (Scenario.removeTarget); the importer holds no further record of it
+    # (its ephemeris ends) unless it comes back under the same id after step j > i - then it is imported again from there on
+    leave = None
+    if imported in ("targets", "both") and late is None and gap is None and len(net["targets"]) >= 2 and steps >= 3 and rng.random() < 0.5:
+        i_rm = rng.randrange(1, steps - 1)
+        j_back = rng.randrange(i_rm + 1, steps) if rng.random() < 0.6 else None
+        leave = [net["targets"][-1]["id"], i_rm, j_back]
     # the consumer may partition the agents over two tasking engines: stored observations then cross the partition
     split = len(net["sensors"]) >= 2 and len(net["targets"]) >= 2 and rng.random() < 0.4
     # imported observations next to live tasking (realtime_observation stays on); in half of those the consumer's sensors see
     # nothing, so the engine tasks no one and only the stored observations can reach the filters
     return {"kind": "c19", "obs_next_to_live_tasking": (live := rng.random() < 0.4), "blind_consumer": live and rng.random() < 0.5,
-            "split_engines": split, "late": late, "net": net, "steps": steps, "edit": edit_kind, "imported": imported, "extra_agents": extra, "gap": gap,
+            "split_engines": split and leave is None, "late": late, "leave": leave, "net": net, "steps": steps, "edit": edit_kind, "imported": imported, "extra_agents": extra, "gap": gap,
             "imported_obs": (imp_obs := rng.random() < 0.6), "dup_obs": imp_obs and rng.random() < 0.35, "edit_seed": rng.randrange(1 << 30)}
 
 
@@ -241,6 +257,9 @@ def eval_case(ctx, case):
             imported_ids.append(late[0])
             ctx.count("late_imported_targets_added")
 
+        leave = case.get("leave")
+        away = [False]
+        leave_cfg = next((t for t in cfg["engines"][0]["targets"] if leave and t["id"] == leave[0]), None)
         if late and late[1] == 0:
             add_late()
         for k in range(1, steps + 1):
@@ -274,6 +293,23 @@ def eval_case(ctx, case):
             _ = gap_now
             if late and late[1] == k and k < steps:
                 add_late()
+            if leave and leave[1] == k:
+                app.removeTarget(leave[0], 1)
+                imported_ids.remove(leave[0])
+                away[0] = True
+                ctx.count("imported_targets_removed_mid_run")
+            if leave and leave[2] == k:
+                # back under the same id, starting from the importer's record of this epoch
+                from resonaate.data.agent import AgentModel  # noqa: F401
+
+                spec = json.loads(json.dumps(leave_cfg))
+                row0 = imp.get((ts, leave[0]))
+                if row0 is not None:
+                    spec["state"] = {"type": "eci", "position": [float(v) for v in row0[:3]], "velocity": [float(v) for v in row0[3:]]}
+                app.addTarget(spec, 1)
+                imported_ids.append(leave[0])
+                away[0] = False
+                ctx.count("imported_targets_back_under_the_same_id")
     except Exception as e:  # noqa: BLE001
         import traceback
 
@@ -304,6 +340,9 @@ def eval_case(ctx, case):
             for t in net["targets"]:
                 if late and t["id"] == late[0] and k <= late[1]:
                     continue  # not in the scenario yet
+                lv = case.get("leave")
+                if lv and t["id"] == lv[0] and k > lv[1] and (lv[2] is None or k <= lv[2]):
+                    continue  # not in the scenario during these steps
                 want = sorted((s, _bits(az), _bits(el)) for (s, az, el, _r, _rr) in imp_obs.get((ts, t["id"]), []))
                 got = [r for r in reached if r[0] == t["id"] and r[1] == ts]
                 have = sorted((s, _bits(az), _bits(el)) for g in got for (s, az, el, _r, _rr) in g[2])
@@ -330,7 +369,7 @@ def eval_case(ctx, case):
 
 def run(ctx):
     rng = ctx.pyrng("c19")
-    n = ctx.scale(32, 6000)
+    n = ctx.scale(96, 6000)
     for i in range(n):
         if ctx.time_left() < 12:
             break
@@ -338,12 +377,20 @@ def run(ctx):
         if i == 0:
             # once per shard, whatever the draw: stored observations next to live tasking with a consumer whose sensors see nothing
             case.update({"imported_obs": True, "dup_obs": False, "obs_next_to_live_tasking": True, "blind_consumer": True, "gap": None, "late": None,
-                         "edit": "exact", "extra_agents": 0, "steps": max(case["steps"], 4)})
+                         "edit": "exact", "extra_agents": 0, "steps": max(case["steps"], 4), "leave": None})
+        elif i == 3 and ctx.shard % 2 == 1 and len(case["net"]["targets"]) >= 2:
+            # forced once per run: an imported target leaves, its ephemeris ends, and it comes back under the same id
+            case.update({"imported": "targets", "gap": None, "late": None, "edit": "exact", "extra_agents": 0, "steps": max(case["steps"], 5), "split_engines": False})
+            case["leave"] = [case["net"]["targets"][-1]["id"], 2, 4 if ctx.shard % 4 == 1 else None]
+        elif i == 4 and ctx.shard % 2 == 0:
+            # forced once per run: the imported satellite with id 0 has a gap
+            case["net"]["targets"][0]["id"] = 0
+            case.update({"imported": "targets", "edit": "gap", "extra_agents": 0, "late": None, "leave": None, "gap": [0, max(1, case["steps"] - 1)]})
         elif i == 2 and ctx.shard % 2 == 0:
             # a large importer database (> 10000 ephemeris rows, mostly of unrelated agents): still read-only
             case.update({"edit": "superset", "extra_agents": 3000, "gap": None, "steps": max(case["steps"], 4)})
             ctx.count("large_importer_cases")
-        elif i == 1 and not case["late"] and len(case["net"]["targets"]) >= 2 and case["imported"] in ("targets", "both") and case["gap"] is None:
+        elif i == 1 and not case["late"] and not case.get("leave") and len(case["net"]["targets"]) >= 2 and case["imported"] in ("targets", "both") and case["gap"] is None:
             case["late"] = [case["net"]["targets"][-1]["id"], 1]  # and a target that joins the importer-driven run late
         ok = eval_case(ctx, case)
         ctx.count("edit_" + case["edit"])
